@@ -1077,3 +1077,62 @@ func TestC20Interrupted(t *testing.T) {
 			"F", "0", "0", "0"}, "T", "interrupted", "nt")
 	}
 }
+
+// ---------------------------------------------------------------- C06 / C20: many setup cleanups of a combined scenario
+
+// A combined scenario whose parts each register hundreds of cleanups during setup, on the one
+// setup handle they share: after the run every one of them has run exactly once, and in the
+// reverse of the order in which they were registered (parts are set up one after the other).
+func TestC06ManySetupCleanups(t *testing.T) {
+	o := kit.Get()
+	defer o.Close()
+	r := kit.NewRand(kit.Seed() + 606)
+	for i := 0; i < kit.N(4, 30); i++ {
+		parts := int(r.Range(2, 8))
+		per := int(kit.Pick(r, 50, 400, 2000))
+		var mu sync.Mutex
+		var registered, ran []int
+		var fns []f1testing.ScenarioFn
+		for p := 0; p < parts; p++ {
+			p := p
+			fns = append(fns, func(st *f1testing.T) f1testing.RunFn {
+				for k := 0; k < per; k++ {
+					id := p*per + k
+					mu.Lock()
+					registered = append(registered, id)
+					mu.Unlock()
+					st.Cleanup(func() {
+						mu.Lock()
+						ran = append(ran, id)
+						mu.Unlock()
+					})
+				}
+				return func(*f1testing.T) {}
+			})
+		}
+		out, hung, _ := runkit.DoTimeout(runkit.Config{Mode: "users", Scenario: f1.CombineScenarios(fns...), Ctx: context.Background(),
+			Opts: options.RunOptions{MaxDuration: 2 * time.Second, Concurrency: 2, MaxIterations: 6}}, 60*time.Second)
+		if hung || out.Err != nil || out.Result == nil {
+			o.Fail("c06-many-run", "run did not complete")
+			continue
+		}
+		mu.Lock()
+		nreg, nran := len(registered), len(ran)
+		reversed := nreg == nran
+		if reversed {
+			for k := range ran {
+				if ran[k] != registered[nreg-1-k] {
+					reversed = false
+					break
+				}
+			}
+		}
+		mu.Unlock()
+		o.Count("setup-cleanups", kit.Bucket(int64(parts*per)))
+		if nreg != parts*per || nran != nreg || !reversed || out.Result.Failed() {
+			o.Fail("setup-cleanups-not-once", fmt.Sprintf("combined scenario of %d parts registering %d setup cleanups each: %d registered, %d ran, in exactly reversed order: %v, run failed: %v",
+				parts, per, nreg, nran, reversed, out.Result.Failed()))
+		}
+		o.Case("c01_ok", []string{kit.I(int64(parts * per)), "0", "0", kit.I(int64(nran)), "0", "0", "F", "0", "0", "0"}, "T", "many-cleanups", "nt")
+	}
+}
